@@ -433,6 +433,58 @@ pub fn c06_swap_oracle(pre: &Ledger, st: &Stepped, w: &StdWorld, a_to_b: bool, e
     if g1_in != g0_in.wrapping_add(growth) {
         return Err(format!("fee growth global went {g0_in} -> {g1_in}, expected +{growth} (mod 2^128)"));
     }
+    // "all the rest accrues to the liquidity in range at that step": what the positions can newly claim after the swap (each brought
+    // up to date by a real update_fees_and_rewards on copies of the pre- and the post-state) is the LP share of the steps that had
+    // liquidity — never more, and less only by rounding (one growth ulp per step for every unit of 2^64 liquidity, one unit per
+    // position and token)
+    {
+        let claims = |l: &Ledger| -> Result<(BigUint, u64), String> {
+            let mut c = l.clone();
+            let mut tot = BigUint::zero();
+            let mut n = 0u64;
+            for p in &w.positions {
+                if !p.exists(&c) {
+                    continue;
+                }
+                if p.state(&c).liquidity > 0 {
+                    let upd = world::ix_update_fees_and_rewards(&p.at(&c));
+                    let o = svm::process(&mut c, &upd);
+                    if !o.ok() {
+                        return Err(format!("update_fees_and_rewards failed: {}", o.short()));
+                    }
+                    n += 1;
+                }
+                let ps = p.state(&c);
+                tot += bu(if a_to_b { ps.fee_owed_a } else { ps.fee_owed_b } as u128);
+            }
+            Ok((tot, n))
+        };
+        let (c0, _) = claims(pre)?;
+        let (c1, n1) = claims(post)?;
+        let mut lp_with_liquidity = BigUint::zero();
+        let mut slack = bu(n1 as u128 + 1);
+        for t in &st.trace {
+            if let SwapTrace::Step(x) = t {
+                if x.liquidity > 0 {
+                    let cut = (bu(x.fee_amount as u128) * bu(p0.protocol_fee_rate as u128)) / bu(10_000);
+                    lp_with_liquidity += bu(x.fee_amount as u128) - cut;
+                    slack += bu(x.liquidity >> 64) + bu(n1 as u128 + 1);
+                }
+            }
+        }
+        if c1 < c0 {
+            return Err(format!("the positions' claimable fees in the input token fell from {c0} to {c1} across a swap"));
+        }
+        let newly = &c1 - &c0;
+        // (the two virtual updates floor separately: a fraction of a unit that was pending before the swap may complete to a whole
+        // unit with it — at most one unit per funded position)
+        if newly > &lp_with_liquidity + bu(n1 as u128) {
+            return Err(format!("after the swap the positions can claim {newly} more of the input token, but the LP share of its steps is only {lp_with_liquidity}"));
+        }
+        if &newly + &slack < lp_with_liquidity {
+            return Err(format!("after the swap the positions can claim only {newly} more of the input token; the LP share of its steps is {lp_with_liquidity} (rounding allowance {slack})"));
+        }
+    }
     // the emitted trade record
     let evs: Vec<Traded> = st.outcome.events.iter().filter_map(|e| decode_traded(e)).collect();
     if evs.len() != 1 {
